@@ -19,15 +19,16 @@ LEVEL_NOTE = "Trusts the harness' bounded walk and the public getters (.parent, 
 DESIGN_REF = 'DESIGN.md 3.3, 4 (C03)'
 ASSUMPTIONS = ["list methods inherited from list (del, pop, list.insert, sort ...) on the live child "
                "lists are not operations of the property's quantifier and are not issued",
-               "universe bounded to 40 objects, histories to 40 ops"]
+               "universe bounded to 40 objects (plus one branch of 60 to 140 nested Sections in some runs), "
+               "histories to 40 ops"]
 
 PROFILES = {
     "c03-structure": Profile("c03-structure", {
         "new_doc": 4, "new_sec": 14, "new_prop": 8, "create_section": 4, "create_property": 3,
         "append": 12, "insert": 8, "extend": 8, "remove": 6, "set_parent": 12, "setitem": 8,
         "reorder": 3, "rename": 4, "clone": 6, "merge": 5, "set_link": 4, "set_include": 2, "save": 2, "merge_self": 2, "bulk_create": 1, "finalize": 1,
-        "clean": 2, "new_id": 1, "add_raising_rule": 1,
-    }, fault_share=0.35),
+        "clean": 2, "new_id": 1, "add_raising_rule": 1, "deep_chain": 1,
+    }, fault_share=0.35, deep_range=(60, 140), deep_room=1),
 }
 MONITORS = [mon_tree]
 
